@@ -135,7 +135,7 @@ theorem bicgstab_close {g : Graph ℚ} (hg : g.Nonneg) (hr : g.InRange) {a : ℚ
     show vec x i - t * π i - a * (PT g.n (trans g) (vec x) i - t * PT g.n (trans g) π i) = _
     have htc : t * c = 1 - a := by rw [ht]; field_simp
     have : t * π i = a * (t * PT g.n (trans g) π i) + (1 - a) * vec y i := by
-      rw [this]; ring_nf; rw [mul_comm (vec y i)]; nlinarith [htc]
+      linear_combination t * this + vec y i * htc
     unfold vec at this ⊢
     linarith
   have hb := resolvent_bound hP ha _ _ hd
@@ -160,5 +160,66 @@ theorem bicgstab_close {g : Graph ℚ} (hg : g.Nonneg) (hr : g.InRange) {a : ℚ
   rw [e2]
   apply div_le_div_of_nonneg_left (by linarith) hden
   nlinarith
+
+/-! ### lanczos -/
+
+/-- ★ `lanczos_contract` : if the vector `x` returned by the external eigensolver is an eigenvector of the (repaired)
+    operator for the eigenvalue 1 with `Σx ≠ 0`, the output `|x| / Σ|x|` of `solver='lanczos'` is the PageRank vector -/
+theorem lanczos_exact {g : Graph ℚ} (hg : g.Nonneg) (hr : g.InRange) {a : ℚ} (ha : 0 ≤ a) (ha1 : a < 1)
+    (y : List ℚ) (hy0 : ∀ i, 0 ≤ vec y i) (hy1 : ∑ i ∈ range g.n, vec y i = 1)
+    {π : ℕ → ℚ} {c : ℚ} (hπ : IsPR g.n (trans g) a (vec y) π c) (x : List ℚ)
+    (heig : ∀ i, i < g.n → (surferStep g a y x).getD i 0 = x.getD i 0) (hs : ∑ i ∈ range g.n, vec x i ≠ 0) :
+    ∀ i, i < g.n → (lanczosBranch g.n x).getD i 0 = π i := by
+  set s := ∑ i ∈ range g.n, vec x i with hsdef
+  have h1a : 0 < 1 - a := by linarith
+  -- z = x / s is a fixed point of the step with sum 1
+  have hz1 : ∑ i ∈ range g.n, (fun j => vec x j / s) i = 1 := by
+    show ∑ i ∈ range g.n, vec x i / s = 1
+    rw [← sum_div, div_self hs]
+  have hzfix : ∀ i, i < g.n → stepF g a (vec y) (fun j => vec x j / s) i = vec x i / s := by
+    intro i hi
+    have e : (fun j => vec x j / s) = fun j => (1 / s) * vec x j := by funext j; ring
+    rw [e, stepF_smul, ← surferStep_getD hg a y x i hi, heig i hi]
+    show 1 / s * vec x i = vec x i / s
+    ring
+  have hcon := stepF_contracts hg hr ha hy0 hy1 (fun j => vec x j / s) π (by rw [hz1, hπ.sum_one])
+  have heq : l1 g.n (fun i => stepF g a (vec y) (fun j => vec x j / s) i - stepF g a (vec y) π i)
+      = l1 g.n (fun i => vec x i / s - π i) := by
+    unfold l1
+    apply sum_congr rfl; intro i hi
+    show |stepF g a (vec y) (fun j => vec x j / s) i - stepF g a (vec y) π i| = |vec x i / s - π i|
+    rw [hzfix i (mem_range.mp hi), stepF_fixed hg hr hy1 hπ i (mem_range.mp hi)]
+  rw [heq] at hcon
+  have hzero : l1 g.n (fun i => vec x i / s - π i) ≤ 0 := by
+    have h0 := l1_nonneg g.n (fun i => vec x i / s - π i)
+    by_contra hc
+    have := mul_pos h1a (not_le.mp hc)
+    nlinarith
+  have hzπ : ∀ i, i < g.n → vec x i = s * π i := by
+    intro i hi
+    have := eq_zero_of_l1_le_zero hzero i hi
+    have h2 : vec x i / s = π i := by linarith
+    rw [← h2]; field_simp
+  -- |x| / Σ|x| = π
+  intro i hi
+  unfold lanczosBranch
+  rw [normalizeV_getD, if_pos hi, tab_getD, if_pos hi, absS_eq]
+  have hsum : (tab g.n fun i => absS (x.getD i 0)).sum = |s| := by
+    have := vsum_tab g.n (fun i => absS (x.getD i 0))
+    unfold vsum at this
+    rw [this]
+    have e : ∀ i ∈ range g.n, absS (x.getD i 0) = |s| * π i := by
+      intro i hi
+      rw [absS_eq]
+      have := hzπ i (mem_range.mp hi)
+      unfold vec at this
+      rw [this, abs_mul, abs_of_nonneg (hπ.nonneg i (mem_range.mp hi))]
+    rw [sum_congr rfl e, ← mul_sum, hπ.sum_one, mul_one]
+  rw [hsum]
+  have := hzπ i hi
+  unfold vec at this
+  rw [this, abs_mul, abs_of_nonneg (hπ.nonneg i hi)]
+  have : |s| ≠ 0 := abs_ne_zero.mpr hs
+  field_simp
 
 end SkNet.Rank
